@@ -18,6 +18,9 @@ KEYWORDS = set("as break const continue crate else enum extern false fn for if i
                "macro override priv typeof unsized virtual yield try gen".split())
 
 
+SNAKE_FAMILY = ("snake_case", "SCREAMING_SNAKE_CASE", "kebab-case", "SCREAMING-KEBAB-CASE")
+
+
 def rust_ident(name):
     return name if name.startswith("r#") else ("r#" + name if name in KEYWORDS else name)
 
@@ -64,6 +67,8 @@ def ident_class(name):
         return "keyword"
     if n.endswith("_") or n.startswith("_"):
         return "edge-underscore"
+    if n != n.lower():
+        return "has-uppercase"
     return "plain"
 
 
@@ -157,10 +162,16 @@ def run(chk):
     rcases = []
     for _ in range(4000 if thorough else 400):
         w = rng.choice(words)
+        rule = rng.choice(rules)
+        if rng.random() < 0.2 and rule not in SNAKE_FAMILY:      # MC_C01!DeferredToC16: that combination is judged by C16
+            k = rng.randrange(3)
+            w = w.upper() if k == 0 else "".join(p.capitalize() if i else p for i, p in enumerate(w.split("_"))) if k == 1 else w[:1].upper() + w[1:]
+            if w in ("Self", "_") or not (w[0].isalpha() or w[0] == "_"):
+                w = "Zed"
         ren = "none"
         if rng.random() < 0.4:
             ren = rng.choice("abcxyzABC_") + "".join(rng.choice(alpha) for _ in range(rng.randint(0, 8)))
-        rcases.append(({"kind": rng.choice(["struct", "variant"]), "ident": w, "rename": ren, "rule": rng.choice(rules),
+        rcases.append(({"kind": rng.choice(["struct", "variant"]), "ident": w, "rename": ren, "rule": rule,
                         "enum_rule": rng.choice(["none", "none", "UPPERCASE", "kebab-case"]), "spelling": rng.choice(["merged", "split", "reversed", "extra"])}, None))
     silent = common.Check(chk.pid, chk.tier, chk.seed)
     events, meta = run_cases(silent, rcases, prefix_cfgs[:1])
